@@ -28,7 +28,10 @@ Init ==
   /\ \/ kind = "box" /\ box \in BoxSpace /\ scale \in Scales /\ objs = <<>> /\ cfg = <<>> /\ areas = <<>>
      \/ kind = "frame" /\ box = NoBox /\ scale = <<1, 1>>
         /\ objs \in UNION {RandomSubset(Sample, [1..n -> ObjSpace]) : n \in 1..MaxObjs}
-        /\ cfg \in CfgSpace /\ areas \in {<<>>} \cup {<<a>> : a \in Areas} \cup {<<a, b>> : a, b \in Areas}
+        \* the threshold set always contains the first object's exact inside count (the >= / > boundary)
+        /\ \E tt \in T0T1 : \E m \in MinPtsSet \cup {Cardinality({p \in Cloud : Inside(p, objs[1].box, ScaleAt(tt[1], tt[2], Dist(objs[1].box.c)))})} :
+              cfg = [t |-> tt, minPts |-> m]
+        /\ areas \in {<<>>} \cup {<<a>> : a \in Areas} \cup {<<a, b>> : a, b \in Areas}
 
 InsideSet(b, s) == {p \in Cloud : Inside(p, b, s)}
 BoundarySet(b, s) == {p \in Cloud : Boundary(p, b, s)}
